@@ -3,6 +3,7 @@ CONSTANTS
   TruncateBytesThenDecode = FALSE
   StopTimerNeedsFloat = FALSE
   RecorderConversionPartial = FALSE
+  ResultBoundAfterValidationOnly = FALSE
 INVARIANT NonInterference
 INVARIANT ObserversTotal
 INVARIANT StatsOnce
